@@ -213,6 +213,15 @@ def F23_sorted_unstable():
     return df.sort_values("offset").column.tolist() == df.sort_values("offset", kind="stable").column.tolist()  # False
 
 
+def F24_sm_without_stops_tag():
+    txt = SM_7K.replace("#STOPS:;", "")
+    try:
+        SMMapSet.read(txt)
+        return "no error"
+    except AttributeError as e:
+        return repr(e)  # 'NoneType' object has no attribute 'sorted'
+
+
 if __name__ == "__main__":
     for name, fn in sorted(globals().items()):
         if name.startswith("F") and callable(fn):
